@@ -447,6 +447,23 @@ def case_metric(case, res, tie=None):
 
 # ------------------------------------------------------------------------------------------------
 
+SMALL_ASSEMBLIES = [
+    {"n": 2, "n_chunks": 1, "zmod": 0, "order": [0], "dropped": 0},
+    {"n": 3, "n_chunks": 2, "zmod": 0, "order": [1, 0], "dropped": 1},
+    {"n": 3, "n_chunks": 2, "zmod": 0, "order": [1, 0, 1], "dropped": 0},
+    {"n": 3, "n_chunks": 5, "zmod": 1, "order": [4, 3, 2, 1, 0, 0], "dropped": 2},
+    {"n": 4, "n_chunks": 3, "zmod": 2, "order": [2, 0, 1, 2], "dropped": 1},
+    {"n": 4, "n_chunks": 6, "zmod": 0, "order": [5, 4, 3, 2, 1, 0], "dropped": 5},
+]
+SMALL_HANDBUILT = [
+    {"n": 2, "entries": [[1, 0], [1, 0]], "mode": "overfull"},
+    {"n": 3, "entries": [[1, 0], [1, 0], [2, 0], [2, 0]], "mode": "overfull"},
+    {"n": 3, "entries": [[1, 0], [2, 1]], "mode": "short"},
+    {"n": 3, "entries": [[2, 1], [1, 0], [2, 0]], "mode": "perm"},
+    {"n": 3, "entries": [[1, 0], [1, 0], [2, 0]], "mode": "exact-dup"},
+]
+
+
 def gen_assembly(rng):
     n = rng.choice([0, 1, 2, 3, 3, 4, 4, 5, 5, 6, 7, 8, 9])
     N = n * (n - 1) // 2
@@ -529,8 +546,12 @@ def run(ctx, res):
     try:
         # ---------- B. assembly through real save/load/concat ---------------------------
         rng = ctx.subrng("asm")
-        for t in range(ctx.scale(150, 1500, 600)):
-            case, has_reps = gen_assembly(rng)
+        n_asm = ctx.scale(150, 1500, 600)
+        for t in range(n_asm):
+            if t < len(SMALL_ASSEMBLIES):     # small fixed cases first so that a replay is small when these already fail
+                case, has_reps = dict(SMALL_ASSEMBLIES[t], kind="assembly"), len(SMALL_ASSEMBLIES[t]["order"]) > SMALL_ASSEMBLIES[t]["n_chunks"]
+            else:
+                case, has_reps = gen_assembly(rng)
             res.evaluations += 1
             nonempty = case_assembly(dc, case, res, tmp, tie, tie_calc=(t < 25 or rng.random() < 0.1))
             if nonempty is not None and nonempty >= 2:
@@ -541,7 +562,7 @@ def run(ctx, res):
         # ---------- B2. hand-built matrices (repeats / missing pairs) ---------------------
         rng = ctx.subrng("hand")
         for t in range(ctx.scale(100, 800, 400)):
-            case = gen_handbuilt(rng)
+            case = dict(SMALL_HANDBUILT[t], kind="handbuilt") if t < len(SMALL_HANDBUILT) else gen_handbuilt(rng)
             res.evaluations += 1
             res.count("handbuilt." + case["mode"])
             case_handbuilt(dc, case, res, tmp, tie)
